@@ -54,7 +54,9 @@ class HashGlobalVar(Expression):
             self.ebpf.call(FuncId.map_lookup_elem)
             with self.ebpf.r0 == 0:
                 self.ebpf.exit()
-            if dst != 0 and force:
+            if dst is not None and dst != 0:
+                # r0 is restored below if it was live: never leave the
+                # address there
                 self.ebpf.append(Opcode.MOV + Opcode.LONG + Opcode.REG, dst,
                                  0, 0, 0)
             else:
